@@ -96,8 +96,11 @@ public:
     XmppSocket xs { nullptr };
     std::vector<std::string> evs;   // events of the current read
     qint64 consumed = 0;            // bytes the XmppSocket lambda has taken (sum of bytesAvailable at readyRead)
+    qint64 pendingN = 0;            // size of the read being processed
     int reads = 0;
     int startedCount = 0;
+    struct Read { qint64 n; std::string obs; std::vector<std::string> evs; };
+    std::vector<Read> readLog;      // the reads as they really happened (normally exactly one per chunk written)
 
     tst_QXmppStream()
     {
@@ -114,8 +117,10 @@ public:
         if (!server.listen(QHostAddress::LocalHost, 0)) return false;
         reader = new QSslSocket();
         // our counter first, so that it sees bytesAvailable() before the XmppSocket lambda drains the socket
-        QObject::connect(reader, &QSslSocket::readyRead, [this]() { consumed += reader->bytesAvailable(); reads++; });
+        QObject::connect(reader, &QSslSocket::readyRead, [this]() { pendingN = reader->bytesAvailable(); consumed += pendingN; reads++; evs.clear(); });
         xs.setSocket(reader);
+        // ... and a second slot after the XmppSocket lambda: what that read produced
+        QObject::connect(reader, &QSslSocket::readyRead, [this]() { readLog.push_back({ pendingN, observe(), evs }); });
         reader->connectToHost(QHostAddress(QHostAddress::LocalHost).toString(), server.serverPort());
         if (!reader->waitForConnected(5000)) return false;
         if (!server.waitForNewConnection(5000)) return false;
@@ -139,20 +144,20 @@ public:
         return o;
     }
 
-    // one socket read carrying exactly `chunk`
-    std::string feedBytes(const QByteArray &chunk, bool &transportOk)
+    // writes `chunk`, waits until the XmppSocket has consumed it; readLog = the reads that really happened
+    // (one read carrying exactly `chunk` unless the transport re-chunked it)
+    bool feedBytes(const QByteArray &chunk)
     {
         evs.clear();
+        readLog.clear();
         qint64 target = consumed + chunk.size();
-        int reads0 = reads;
         writer->write(chunk);
         writer->flush();
         QElapsedTimer t; t.start();
         while (consumed < target && t.elapsed() < 10000) {
             if (!reader->waitForReadyRead(2000)) QCoreApplication::processEvents();
         }
-        transportOk = (consumed == target) && (reads - reads0 == 1);
-        return observe();
+        return consumed == target;
     }
 
     std::string feedText(const QString &text)
@@ -260,6 +265,24 @@ static std::vector<Stream> corpus()
 }
 
 // ---------------------------------------------------------------- helpers
+// UTF-16 offset of every code point (QString::fromUcs4 must not be used for substrings: it strips a leading U+FEFF)
+static std::vector<int> cpOffsets(const QString &s)
+{
+    std::vector<int> o;
+    for (int i = 0; i < s.size(); i++) {
+        o.push_back(i);
+        if (s[i].isHighSurrogate() && i + 1 < s.size() && s[i + 1].isLowSurrogate()) i++;
+    }
+    o.push_back(s.size());
+    return o;
+}
+
+static bool startsWithBom(const QByteArray &bytes, int pos)
+{
+    return pos + 2 < bytes.size() && static_cast<unsigned char>(bytes[pos]) == 0xEF &&
+        static_cast<unsigned char>(bytes[pos + 1]) == 0xBB && static_cast<unsigned char>(bytes[pos + 2]) == 0xBF;
+}
+
 static bool insideMultibyte(const QByteArray &bytes, int pos)   // cut before byte `pos`
 {
     return pos > 0 && pos < bytes.size() && (static_cast<unsigned char>(bytes[pos]) & 0xC0) == 0x80;
@@ -284,19 +307,28 @@ struct Runner {
     long long transportRetries = 0;
     std::map<std::string, std::vector<std::string>> wholeEvents;   // stream -> events of the one-read run
 
+    std::vector<int> actualCuts;   // read boundaries of the last runBytes as they really happened
+
     // feeds the chunks through the socket, printing one correspondence line per read; returns all events
     std::vector<std::string> runBytes(const std::vector<QByteArray> &chunks)
     {
         std::vector<std::string> all;
         rig.reset();
+        actualCuts.clear();
         corr("reset", "ok");
+        int pos = 0;
         for (auto &ch : chunks) {
-            bool ok = true;
-            std::string obs = rig.feedBytes(ch, ok);
-            if (!ok) { transportRetries++; stat("transport_rechunked"); }
-            corr("b " + hexOf(ch), obs);
-            for (auto &e : rig.evs) all.push_back(e);
+            if (!rig.feedBytes(ch)) { fprintf(stderr, "loopback transport stalled\n"); exit(3); }
+            if (rig.readLog.size() != 1) { transportRetries++; stat("transport_rechunked"); }
+            int off = 0;
+            for (auto &rd : rig.readLog) {
+                corr("b " + hexOf(ch.mid(off, int(rd.n))), rd.obs);
+                for (auto &e : rd.evs) all.push_back(e);
+                off += int(rd.n); pos += int(rd.n);
+                actualCuts.push_back(pos);
+            }
         }
+        if (!actualCuts.empty()) actualCuts.pop_back();
         return all;
     }
 
@@ -318,14 +350,14 @@ struct Runner {
         auto got = nonKeepAlive(evs);
         auto &want = wholeEvents[s.name];
         if (got == want) { oraclePass()++; return; }
-        bool mb = false;
-        for (int c : cuts) if (insideMultibyte(s.bytes, c)) mb = true;
+        bool mb = false, bom = false;
+        for (int c : cuts) { if (insideMultibyte(s.bytes, c)) mb = true; if (startsWithBom(s.bytes, c)) bom = true; }
         std::string cutsS;
         for (int c : cuts) cutsS += (cutsS.empty() ? "" : ",") + std::to_string(c);
-        std::string key = mb ? "C03:split-inside-multibyte-char" : "C03:split-changes-events:" + s.name;
+        std::string key = mb ? "C03:split-inside-multibyte-char" : bom ? "C03:read-starting-with-zwnbsp-drops-it" : "C03:split-changes-events:" + s.name;
         oracleFail(key, std::string(how) + " stream=" + s.name + " bytes=" + hexOf(s.bytes) + " cuts=" + cutsS +
                    " one-read=" + joinEvs(want) + " split=" + joinEvs(got));
-        stat(mb ? "oracle_fail_inside_multibyte" : "oracle_fail_other");
+        stat(mb ? "oracle_fail_inside_multibyte" : bom ? "oracle_fail_read_starts_with_zwnbsp" : "oracle_fail_other");
     }
 
     void runSplit(const Stream &s, std::vector<int> cuts, const char *how)
@@ -336,9 +368,8 @@ struct Runner {
         int prev = 0;
         for (int c : cuts) { if (c <= 0 || c >= s.bytes.size()) continue; chunks.push_back(s.bytes.mid(prev, c - prev)); prev = c; }
         chunks.push_back(s.bytes.mid(prev));
-        std::vector<int> eff;
-        { int p = 0; for (size_t i = 0; i + 1 < chunks.size(); i++) { p += chunks[i].size(); eff.push_back(p); } }
         auto evs = runBytes(chunks);
+        std::vector<int> eff = actualCuts;
         judge(s, eff, evs, how);
         stat(std::string("runs_") + how);
         bool mb = false; for (int c : eff) if (insideMultibyte(s.bytes, c)) mb = true;
@@ -408,10 +439,10 @@ static long long checkPrefixOracle(const Stream &s, long long &checks)
             }
             if (b < n) {
                 const QString &t = s.items[b].text;
-                auto u = t.toUcs4();
-                for (int k = 1; k < u.size(); k++) {
+                auto off = cpOffsets(t);
+                for (size_t k = 1; k + 1 < off.size(); k++) {
                     checks++;
-                    QString p = QString::fromUcs4(u.constData(), k);
+                    QString p = t.left(off[k]);
                     bool ho, hc; QString cap, root; std::vector<QString> kids;
                     QString w = wrapLikeTheCode(tag, seg + p, ho, hc, cap);
                     if (domChildren(w, root, kids)) viol++;
@@ -465,6 +496,10 @@ int main(int argc, char **argv)
         int cut = w.bytes.indexOf('\xb1');
         R.runSplit(w, { cut }, "witness");
         sample("witness <m>ñ</m> cut between C3 and B1: one-read=" + joinEvs(R.wholeEvents[w.name]));
+        // second witness: the read boundary is a character boundary, but the next read starts with U+FEFF (EF BB BF)
+        Stream z = mk("witness-zwnbsp", 3, { "<m>\xef\xbb\xbfx</m>" }, false);
+        R.wholeEvents[z.name] = nonKeepAlive(R.runBytes({ z.bytes }));
+        R.runSplit(z, { int(z.bytes.indexOf('\xef')) }, "witness");
     }
 
     // 1. one-read runs (reference of the oracle) + PrefixOracle on QDomDocument and on the Lean parser
@@ -511,7 +546,7 @@ int main(int argc, char **argv)
     }
 
     // 4. random k-way splits
-    int nrand = thorough ? 250 : 25;
+    int nrand = thorough ? 1000 : 25;
     for (auto &s : cs) {
         for (int j = 0; j < nrand; j++) {
             int k = 2 + int(rng.below(thorough ? 12 : 6));
@@ -524,28 +559,34 @@ int main(int argc, char **argv)
 
     // 5. thorough: every 3-way split of the shortest streams
     if (thorough) {
-        for (size_t oi = 0; oi < 5 && oi < order.size(); oi++) {
-            auto &s = cs[order[oi]];
+        std::vector<size_t> pick;
+        for (size_t oi = 0; oi < 5 && oi < order.size(); oi++) pick.push_back(order[oi]);
+        for (size_t i : { size_t(4), size_t(5), size_t(6), size_t(7) })          // the streams with 2-, 3-, 4-byte characters
+            if (std::find(pick.begin(), pick.end(), i) == pick.end()) pick.push_back(i);
+        for (size_t pi : pick) {
+            auto &s = cs[pi];
             for (int i = 1; i < s.bytes.size(); i++)
                 for (int j = i + 1; j < s.bytes.size(); j++) R.runSplit(s, { i, j }, "split3");
+            stat("streams_with_all_3_splits");
         }
     }
 
     // 6. text level, direct processData calls (includes empty reads, which a socket cannot deliver)
     for (size_t si = 0; si < cs.size(); si++) {
         auto &s = cs[si];
-        auto u = s.text.toUcs4();
-        auto sub = [&](int from, int to) { return QString::fromUcs4(u.constData() + from, to - from); };
+        auto off = cpOffsets(s.text);
+        int ncp = int(off.size()) - 1;
+        auto sub = [&](int from, int to) { return s.text.mid(off[size_t(from)], off[size_t(to)] - off[size_t(from)]); };
         int step = (thorough || si % 4 == 0) ? 1 : 7;
-        for (int k = 0; k <= u.size(); k += step) {
-            auto evs = R.runText({ sub(0, k), sub(k, u.size()) });
+        for (int k = 0; k <= ncp; k += step) {
+            auto evs = R.runText({ sub(0, k), sub(k, ncp) });
             if (nonKeepAlive(evs) == R.wholeEvents[s.name]) oraclePass()++;
             else oracleFail("C03:text-split-changes-events:" + s.name, "cut at char " + std::to_string(k) + " of " + hexOf(s.bytes));
             stat("runs_text2");
         }
         // empty reads sprinkled in
-        int k = int(rng.below(uint32_t(u.size())));
-        auto evs = R.runText({ QString(), sub(0, k), QString(), sub(k, u.size()), QString() });
+        int k = int(rng.below(uint32_t(ncp)));
+        auto evs = R.runText({ QString(), sub(0, k), QString(), sub(k, ncp), QString() });
         if (nonKeepAlive(evs) == R.wholeEvents[s.name]) oraclePass()++;
         else oracleFail("C03:text-split-changes-events:" + s.name, "empty reads, cut at char " + std::to_string(k) + " of " + hexOf(s.bytes));
         stat("runs_text_empty_reads");
@@ -575,6 +616,20 @@ int main(int argc, char **argv)
             { q("<?xml version='1.0'?>"), q("<stream:stream" + std::string(NS) + ">"), q("<presence/>"), q("</stream:stream>") },
         };
         for (auto &seq : seqs) { R.runText(seq); stat("regex_probe_sequences"); }
+    }
+
+    // 8. two legal but unusual headers on which the regex-based header detection goes wrong (judged by the oracle,
+    //    every 2-way split; they do NOT satisfy PrefixOracle, so the theorems say nothing about them)
+    {
+        auto special = [&](const std::string &name, const char *hdr) {
+            Stream s; s.name = name;
+            s.items = { { 'h', QString::fromUtf8(hdr) }, { 's', QStringLiteral("<presence/>") }, { 'c', QStringLiteral("</stream:stream>") } };
+            for (auto &it : s.items) { s.byteBoundaries.push_back(s.bytes.size()); s.text += it.text; s.bytes += it.text.toUtf8(); }
+            R.wholeEvents[s.name] = nonKeepAlive(R.runBytes({ s.bytes }));
+            for (int k = 1; k < s.bytes.size(); k++) R.runSplit(s, { k }, "special");
+        };
+        special("header-gt-in-attribute-value", "<stream:stream id='a>b' xmlns:stream='http://etherx.jabber.org/streams' xmlns='jabber:client'>");
+        special("header-newline-in-xml-declaration", "<?xml version='1.0'\n?><stream:stream xmlns:stream='http://etherx.jabber.org/streams' xmlns='jabber:client'>");
     }
 
     stat("transport_retries", R.transportRetries);
